@@ -267,7 +267,17 @@ func c18Value(t *rapid.T, label string) string {
 		if i > 0 {
 			sb.WriteString(strings.Repeat(" ", rapid.SampledFrom([]int{1, 1, 1, 1, 1, 1, 2, 3, 5, 8, 12, 20, 40, 80}).Draw(t, label+"-sp")))
 		}
-		switch rapid.IntRange(0, 5).Draw(t, label+"-wk") {
+		switch rapid.IntRange(0, 6).Draw(t, label+"-wk") {
+		case 6:
+			// one long blank-free word with punctuation inside (a List-Unsubscribe value, a URL with a query,
+			// a semicolon separated list): there is no folding opportunity in it
+			sb.WriteString(rapid.SampledFrom([]string{
+				"<mailto:unsubscribe-0123456789abcdef@lists.verif.example?subject=unsubscribe>,<https://lists.verif.example/u/0123456789abcdef0123456789abcdef>",
+				"https://verif.example/path/to/a/resource?with=a&long=query;and,commas,inside,the,value,that,goes,on,and,on,and,on",
+				"a,b,c,d,e,f,g,h,i,j,k,l,m,n,o,p,q,r,s,t,u,v,w,x,y,z,a,b,c,d,e,f,g,h,i,j,k,l,m,n,o,p,q,r,s,t,u,v,w,x,y,z",
+				"key=value;key2=value2;key3=value3;key4=value4;key5=value5;key6=value6;key7=value7;key8=value8",
+				"(comment-like)(parentheses)(without)(any)(blank)(between)(them)(for)(more)(than)(seventy)(eight)(columns)",
+			}).Draw(t, label+"-punct"))
 		case 0:
 			sb.WriteString(strings.Repeat(rapid.SampledFrom([]string{"x", "é", "0"}).Draw(t, label+"-ch"), rapid.SampledFrom([]int{0, 1, 20, 50, 60, 65, 70, 74, 75, 76, 77, 78, 79, 80, 120, 300}).Draw(t, label+"-wl")))
 		default:
